@@ -494,12 +494,15 @@ fn op(
                 );
             }
             (Temporary::Register(source_register_1), Temporary::Spill(source_position_2)) => {
+                // the first source may itself be the first scratch register (e.g., when adding the
+                // tag to the jump-table address), so we must not clobber it
+                let scratch = if source_register_1 == TEMP { TEMP2 } else { TEMP };
                 instructions.push(Code::LDR(
-                    TEMP,
+                    scratch,
                     Register::SP,
                     stack_offset(source_position_2),
                 ));
-                op(target_register, source_register_1, TEMP, instructions);
+                op(target_register, source_register_1, scratch, instructions);
             }
             (Temporary::Spill(source_position_1), Temporary::Register(source_register_2)) => {
                 instructions.push(Code::LDR(
